@@ -138,6 +138,18 @@ def build(spec):
     elif kind == "zero-first":              # the CIQ layout: first shift 0
         shifts = draw(int(sk["Q"]))
         shifts[0] = 0.0
+    elif kind == "spread":
+        # shifts of very different difficulty in a prescribed ORDER: 0 (the hardest system: condition number of K),
+        # 10 x and 100 x the largest eigenvalue (condition numbers ~1.1 and ~1.01).  order: asc = hardest first (the
+        # layout of contour_integral_quad), desc = hardest last, mid = hardest in the middle
+        Qs = int(sk["Q"])
+        mags = [0.0, 10.0, 100.0][:Qs] if Qs <= 3 else [0.0] + [10.0 * (j + 1) for j in range(Qs - 1)]
+        order = sk.get("order", "asc")
+        if order == "desc":
+            mags = mags[::-1]
+        elif order == "mid":
+            mags = mags[1:2] + mags[0:1] + mags[2:]
+        shifts = sgn * torch.tensor(mags, dtype=F64) * top * (abs(v) if v is not None else 1.0)
     elif kind == "batched":
         shifts = draw(int(sk["Q"]), *batch)
     elif kind == "partial":                 # batch dimensions of size 1 where the rhs batch is larger
